@@ -42,7 +42,9 @@ func OwnerStoreID(owner interface{}) string {
 	switch o := owner.(type) {
 	case replicator.VerifInspector:
 		return o.VerifStoreID()
-	case interface{ Address() interface{ String() string } }:
+	case interface {
+		Address() interface{ String() string }
+	}:
 		return o.Address().String()
 	}
 	if a, ok := owner.(iface.Store); ok {
@@ -55,15 +57,18 @@ func OwnerStoreID(owner interface{}) string {
 
 var autoYieldState, autoYieldEvery uint64
 var autoYieldCount uint64
+var autoYieldBursts = []int{1, 1, 1, 1, 2, 4, 16, 64}
 
 // SetAutoYieldRate: every==0 switches the yields off; otherwise a goroutine reaching an
 // inserted yield point calls runtime.Gosched() with probability 1/every, decided by a
 // generator whose state only advances at yield points (so the sequence of decisions is a
-// function of the run).
-func SetAutoYieldRate(seed uint64, every uint64) {
+// function of the run). Points right before a mutex acquisition fire with probability
+// 1/lockEvery and then always as a long preemption.
+func SetAutoYieldRate(seed uint64, every, lockEvery uint64) {
 	autoYieldState, autoYieldEvery, autoYieldCount = seed|1, every, 0
 	if every == 0 {
 		verifhook.SetAutoYield(nil)
+		verifhook.SetAutoYieldLock(nil)
 		return
 	}
 	verifhook.SetAutoYield(func() {
@@ -73,7 +78,33 @@ func SetAutoYieldRate(seed uint64, every uint64) {
 		autoYieldState = autoYieldState*6364136223846793005 + 1442695040888963407
 		if (autoYieldState>>33)%autoYieldEvery == 0 {
 			autoYieldCount++
-			runtime.Gosched()
+			// mostly a single yield; sometimes a long preemption: the goroutine gives its turn
+			// away many times in a row, so that the others get through whole operations while
+			// it sits between two of its statements (no clock, no blocking: it stays runnable,
+			// so a goroutine waiting for a mutex it holds just waits a little longer)
+			n := autoYieldBursts[(autoYieldState>>41)%uint64(len(autoYieldBursts))]
+			for i := 0; i < n; i++ {
+				runtime.Gosched()
+			}
+		}
+	})
+	if lockEvery == 0 {
+		verifhook.SetAutoYieldLock(nil)
+		return
+	}
+	verifhook.SetAutoYieldLock(func() {
+		if inKernel {
+			return
+		}
+		autoYieldState = autoYieldState*6364136223846793005 + 1442695040888963407
+		if (autoYieldState>>33)%lockEvery == 0 {
+			autoYieldCount++
+			n := autoYieldLockBursts[(autoYieldState>>41)%uint64(len(autoYieldLockBursts))]
+			for i := 0; i < n; i++ {
+				runtime.Gosched()
+			}
 		}
 	})
 }
+
+var autoYieldLockBursts = []int{16, 64, 64, 256}
